@@ -179,13 +179,13 @@ let handle line =
            let opl = List.map op_of_opt (list_of ops) in
            "{\"init\":\"ok\",\"st0\":" ^ jstate s0 ^ ",\"steps\":[" ^ String.concat "," (run_ops np_step read s0 opl) ^ "]"
            ^ jreindex (fun x -> x) rx (final_state np_step s0 opl) ^ "}")
-  | L [A "alias"; A k; extra; al; pref; sp; st; d; dflt; nms; ivs; ops; reads; rx; L [A "fl"; f1; f2; f3]] ->
+  | L [A "alias"; A k; extra; al; pref; sp; st; d; dflt; nms; ivs; ops; reads; rx; L [A "fl"; f1; f2; f3]; ca] ->
       (* AliasMixin over a model / linker: constructor, ops through aliases, renamed export *)
       let dr = match dreq_of d with Some x -> x | None -> failwith "dreq" in
       (match alias_construct (aliases_of al) (names_of pref) with
        | Raise e -> "{\"init\":" ^ jstr (exn_name e) ^ ",\"steps\":[]}"
        | Ret am ->
-           let (s0, out) = alias_init_model am (kind_of k (int_of_sx extra)) (List.map z_of_sx (list_of sp)) (int_of_sx st <> 0) dr
+           let (s0, out) = alias_init_model (names_of ca) am (kind_of k (int_of_sx extra)) (List.map z_of_sx (list_of sp)) (int_of_sx st <> 0) dr
                (operand_of dflt) (names_of nms) (ivs_of ivs) in
            let amj = "\"aliases\":" ^ jlist (fun (a, b) -> "[" ^ jname a ^ "," ^ jname b ^ "]") am.amap in
            (match out with
